@@ -516,8 +516,18 @@ func cmdCheck(args []string) int {
 			}
 		}
 	}
+	// every listed (status known) finding of this property is printed on every run, hit or not
+	for _, f := range listedKnown(p.ID) {
+		if _, ok := known[f.Key]; !ok {
+			known[f.Key] = 0
+		}
+	}
 	for _, k := range sortedKeys(known) {
-		fmt.Printf("KNOWN-FINDING: property=%s %s (hit %d times)\n", p.ID, knownText(p.ID, k), known[k])
+		hit := fmt.Sprintf("hit %d times in this run", known[k])
+		if known[k] == 0 {
+			hit = "listed; not reached by this run's budget"
+		}
+		fmt.Printf("KNOWN-FINDING: property=%s %s (%s)\n", p.ID, knownText(p.ID, k), hit)
 	}
 
 	cov := ev["coverage"].(map[string]any)
@@ -539,6 +549,28 @@ func cmdCheck(args []string) int {
 		return 2
 	}
 	return 0
+}
+
+type knownEntry struct{ Property, Key, Status, What string }
+
+func listedKnown(prop string) []knownEntry {
+	b, err := os.ReadFile(envOr("VSIM_KNOWN_FILE", filepath.Join(verifDir, "known_findings.json")))
+	if err != nil {
+		return nil
+	}
+	var fs struct {
+		Findings []knownEntry `json:"findings"`
+	}
+	if json.Unmarshal(b, &fs) != nil {
+		return nil
+	}
+	var out []knownEntry
+	for _, f := range fs.Findings {
+		if f.Property == prop && f.Status == "known" {
+			out = append(out, f)
+		}
+	}
+	return out
 }
 
 func knownText(prop, key string) string {
